@@ -87,7 +87,9 @@ def asZoneIn (j : Json) : R (Zone × Option Zone) := do
 
 /-- (tree the model runs on, tree the specification speaks about; `none` = silent) -/
 def asTempTree (j : Json) : R (TempTree × Option TempTree) := do
-  let n ← match j.getObjVal? "coretemp" with | .ok v => asNat v | .error _ => pure 0
+  let n0 ← match j.getObjVal? "coretemp" with | .ok v => asNat v | .error _ => pure 0
+  -- the coretemp platform files exist for the code only while it globs for them (fact `tempGlobs`)
+  let n := if coretempConsulted then n0 else 0
   let chips ← listD asChip j "chips"
   let zs ← listD asZoneIn j "zones"
   let specZones : Option (List Zone) := zs.foldr (fun z acc => match z.2, acc with
